@@ -82,7 +82,7 @@ class Ctx:
                 f.write(cfg_text)
         return d
 
-    def tlc_mc(self, name, module, cfg_text=None, cfg_name=None, workers=None, timeout=1200, coverage=False, expect_violation=False):
+    def tlc_mc(self, name, module, cfg_text=None, cfg_name=None, workers=None, timeout=3600, coverage=False, expect_violation=False):
         cfg_name = cfg_name or (name + ".cfg")
         d = self._tlc_dir(name, cfg_text, cfg_name)
         cmd = ["timeout", str(timeout), "tlc", "-workers", str(workers or min(CORES, 16)), "-metadir", os.path.join(d, "meta"),
